@@ -13,6 +13,7 @@ import DosModel.Proofs.MontRedc
 import DosModel.Proofs.MontInvert
 import DosModel.Proofs.AsmMul
 import DosModel.Proofs.MontMulxRedc
+import DosModel.Proofs.Bn256Prime
 import DosModel.Model.AsmBn256
 import DosModel.Model.Bn256Field
 
@@ -95,9 +96,16 @@ theorem invert_correct (f : GFp) (hf : f.v < Bn256.p) :
     (GFp.invert f).v < Bn256.p ∧
     (GFp.invert f).v * GFp.rN1.v ≡ (f.v * GFp.rN1.v) ^ (Bn256.p - 2) [MOD Bn256.p] := invert_pow f hf
 
-/-- … which is the inverse when p is prime (assumption, see the manifest) -/
-theorem invert_is_inverse_of_prime (hprime : Nat.Prime Bn256.p) (f : GFp) (hf : f.v < Bn256.p) (hf0 : f.v ≠ 0) :
-    ((GFp.invert f).v * GFp.rN1.v) * (f.v * GFp.rN1.v) ≡ 1 [MOD Bn256.p] := invert_inverse hprime f hf hf0
+/-- the base-field modulus P and the group order r (regenerated literals) are PRIME: Pratt certificates
+checked by Lean (Lucas' test with complete factorisations of n − 1, recursively) -/
+theorem consts_primes : Nat.Prime Gen.Bn256.P ∧ Nat.Prime Gen.Bn256.Order :=
+  ⟨Dos.Prime.P_prime, Dos.Prime.Order_prime⟩
+
+/-- … hence gfP.Invert IS the field inverse in Montgomery form, for every reduced non-zero element:
+decode(Invert f) · decode(f) ≡ 1 (mod p) -/
+theorem invert_is_inverse (f : GFp) (hf : f.v < Bn256.p) (hf0 : f.v ≠ 0) :
+    ((GFp.invert f).v * GFp.rN1.v) * (f.v * GFp.rN1.v) ≡ 1 [MOD Bn256.p] :=
+  invert_inverse (consts_p2_is_P.1 ▸ Dos.Prime.P_prime) f hf hf0
 
 /-! ## 3. the interpreted assembly (regenerated listing of gfp.s) -/
 
